@@ -157,6 +157,33 @@ def t2_cases(sp, thorough):
     return out
 
 
+def t2s_cases(sp, thorough):
+    """Both sides built from the SAME set of units with different exponents (ft*in^2 ->
+    ft^2*in, h/s -> s/h, acre*ft -> acre^2*ft^-1 ...): two units of one dimension, or of
+    dependent dimensions (length with area / volume), optionally a prefix on one side."""
+    out = []
+    rel = [("L", "L", 1), ("T", "T", 1), ("M", "M", 1), ("V", "V", 1), ("L", "A", 2), ("L", "V", 3), ("E", "E", 1), ("B", "B", 1)]
+    k = 3 if thorough else 2
+    rng = (-2, -1, 1, 2)
+    for pa, pb, r in rel:
+        for a in POOLS[pa][:k + 1]:
+            for b in POOLS[pb][:k]:
+                if a == b:
+                    continue
+                for i in rng:
+                    for j in rng:
+                        for k2 in rng:
+                            for l in rng:
+                                if (i, j) == (k2, l) or i + r * j != k2 + r * l:
+                                    continue
+                                src, dst = ((a, i), (b, j)), ((a, k2), (b, l))
+                                out.append(((None, src), (None, dst)))
+                                if thorough or (i, j) == (1, 2):
+                                    out.append((("kilo", src), (None, dst)))
+                                    out.append(((None, src), ("milli", dst)))
+    return out
+
+
 def _spellings(parts, pools):
     choices = [[(n, e) for n in pools[k]] for k, e in parts]
     for combo in itertools.product(*choices):
@@ -220,7 +247,7 @@ def t4_cases(sp, thorough):
     return out
 
 
-TIERS = [("T1", t1_cases), ("T1p", t1p_cases), ("T1q", t1q_cases), ("T2", t2_cases), ("T3", t3_cases), ("T4", t4_cases)]
+TIERS = [("T1", t1_cases), ("T1p", t1p_cases), ("T1q", t1q_cases), ("T2", t2_cases), ("T2s", t2s_cases), ("T3", t3_cases), ("T4", t4_cases)]
 
 
 # ------------------------------------------------------------------ judging one case
